@@ -5,7 +5,10 @@ import FxVerif.Gen.C17
 `Gen.C17.sites` (typed translator, regenerated every run) lists every `range` over a map (with a syntactic class of its
 body; `+exit` marks a `break` / non-constant `return` out of the loop), every floating-point operation (marked
 `in-maprange` when it is executed inside a range over a map; accumulations carry the shape of what is added),
-`time.Now`, `go`, `select` and random-number call in the non-generated, non-CLI code of `x/…`, `app`, `ante`, `types`,
+`time.Now` (also every call of a dependency function whose body reads the clock: wrappers such as cometbft `tmtime.Now`),
+`go`, `select`, random-number call and process-specific value (`procValue`: `debug.Stack`, `runtime.Stack/Caller/
+NumGoroutine/…`, `os.Getpid/Hostname/Getenv/…`, reflect / unsafe pointer values, `%p` and printed channels / functions /
+addresses) in the non-generated, non-CLI code of `x/…`, `app`, `ante`, `types`,
 `contract`.  Each site is assigned a *class*; each class has an order- and platform-independence theorem in
 `Props/C17.lean` about the executable model of that computation given here.  A new site in the source is not in
 `reviewed`, so `inventory_covered` stops checking.
@@ -22,6 +25,8 @@ inductive Class where
   | mapCopy          -- copy into another map / JSON object keyed by the iteration key: `lookup_perm`
   | cliOnly          -- command-line option assembly, not executed in block processing
   | pureCompare      -- a float produced from an integer by a fixed function and only compared with 0
+  | exportOnly       -- state export for a zero-height genesis (`app export`), never part of block execution
+  | nodeConfig       -- default node home directory computed at package initialisation (CLI / config default, not state)
   deriving DecidableEq, Repr
 
 /-- hand-reviewed sites, keyed by (package, function, kind, expression) — never by line number -/
@@ -59,7 +64,12 @@ def reviewed : List (String × String × String × String × Class) := [
   ("x/gov/keeper", "Keeper.Tally", "mapRange", "currValidators", .permFold),
   ("x/gov/types", "CustomParams.ValidateBasic", "float", "binop <=", .pureCompare),
   ("x/gov/types", "CustomParams.ValidateBasic", "float", "p.VotingPeriod.Seconds", .pureCompare),
-  ("x/migrate/keeper", "Keeper.MigrateAccount", "float", "telemetry.IncrCounter", .telemetry)
+  ("x/migrate/keeper", "Keeper.MigrateAccount", "float", "telemetry.IncrCounter", .telemetry),
+  -- clock wrappers (dependency functions whose body reads the clock) and process-specific values
+  ("x/gov", "EndBlocker", "timeNow", "github.com/cosmos/cosmos-sdk/telemetry.Now (calls time.Now)", .telemetry),
+  ("app", "App.prepForZeroHeightGenesis", "timeNow", "github.com/cosmos/cosmos-sdk/x/crisis/keeper.Keeper.AssertInvariants (calls time.Now)", .exportOnly),
+  ("types", "init", "procValue", "os.ExpandEnv", .nodeConfig),
+  ("types", "init", "procValue", "os.UserHomeDir", .nodeConfig)
 ]
 
 def classify (s : Site) : Option Class :=
@@ -84,7 +94,17 @@ def classConsistent (s : Site) (c : Class) : Bool :=
     | .floatOfExactInt => ["in-maprange float64", "in-maprange math.Abs", "binop /", "float64", "math.Abs", "fmt.Sprintf",
         "types.BridgeValidators(currentOracleSet.Members).PowerDiff"].contains s.expr
     | _ => false
-  else false   -- time.Now / go / select / rand have no admissible class: any occurrence breaks the obligation
+  else if s.kind == "timeNow" then
+    match c with
+    -- `telemetry.Now()` whose value is only handed to `telemetry.ModuleMeasureSince` (deferred metrics of the end blocker)
+    | .telemetry => s.expr == "github.com/cosmos/cosmos-sdk/telemetry.Now (calls time.Now)" && s.func == "EndBlocker"
+    | .exportOnly => s.pkg == "app" && s.func == "App.prepForZeroHeightGenesis"
+    | _ => false   -- a direct time.Now / Since / Until, or any other wrapper, has no admissible class
+  else if s.kind == "procValue" then
+    match c with
+    | .nodeConfig => s.pkg == "types" && s.func == "init"
+    | _ => false   -- stack traces, goroutine / cpu counts, pids, printed addresses: no admissible class
+  else false   -- go / select / rand have no admissible class: any occurrence breaks the obligation
 
 def covered (s : Site) : Bool :=
   match classify s with
